@@ -4,7 +4,7 @@
 # confirm: in the scratch worktree, the 102 unit tests pass with the change. check: apply to /repo transiently, run the
 # property's quick check, revert; record under /verif/benign/<ID>-<v>/.
 ID=$1; V=$2
-R=${SEED_ROOT:-/tmp/seed8}; W=$R/$ID; O=$R/$ID-ben
+R=${SEED_ROOT:-/tmp/seed8}; W=$R/$ID; O=$R/$ID-${BEN:-ben}
 [ -f $O/$V.diff ] || { echo "no $O/$V.diff"; exit 1; }
 export CARGO_NET_OFFLINE=true
 if [ "${PHASE:-all}" != check ]; then
